@@ -305,13 +305,44 @@ func (c *FnCtx) arith(op token.Token, x, y string, t, yTy types.Type, checks boo
 		if checks {
 			if c.fc != nil && (c.fc.NoSafety["ovf"] || c.fc.NoSafety["all"]) {
 				// no overflow obligation is generated here, so the result must be the machine result: wrap around
+				if a, okA := smtConstInt(x); okA {
+					if b, okB := smtConstInt(y); okB {
+						// both operands are literals: fold (keeps index terms inside quantifier triggers simple)
+						v := new(big.Int)
+						switch op {
+						case token.ADD:
+							v.Add(a, b)
+						case token.SUB:
+							v.Sub(a, b)
+						case token.MUL:
+							v.Mul(a, b)
+						default:
+							v = nil
+						}
+						if v != nil {
+							mod := pow2(ii.bits)
+							if ii.signed {
+								h := pow2(ii.bits - 1)
+								v.Add(v, h)
+								v.Mod(v, mod)
+								v.Sub(v, h)
+							} else {
+								v.Mod(v, mod)
+							}
+							return smtInt(v)
+						}
+					}
+				}
 				m := smtInt(pow2(ii.bits))
 				w := "(mod " + r + " " + m + ")"
 				if ii.signed {
 					h := smtInt(pow2(ii.bits - 1))
 					w = "(- (mod (+ " + r + " " + h + ") " + m + ") " + h + ")"
 				}
-				return "(ite " + inRange(r) + " " + r + " " + w + ")"
+				// name the machine result so that quantifier triggers built from it stay ite-free
+				n := c.fresh("wrap", "Int")
+				c.define(eq(n, "(ite "+inRange(r)+" "+r+" "+w+")"))
+				return n
 			}
 			c.check(fmt.Sprintf("safety.ovf:%d", c.ordinal("ovf")), "arithmetic stays in range of "+t.String(), inRange(r))
 		}
@@ -986,4 +1017,29 @@ func (c *FnCtx) ssub(s, lo, hi string) string {
 	c.decl("(declare-fun ssub (Slice " + I + " " + I + ") Slice)")
 	c.decl("(assert (forall ((s Slice) (lo " + I + ") (hi " + I + ")) (! (= (ssub s lo hi) (mk_slice (s_reg s) (" + plus + " (s_off s) lo) (" + minus + " hi lo) (" + minus + " hi lo))) :pattern ((ssub s lo hi)))))")
 	return "(ssub " + s + " " + lo + " " + hi + ")"
+}
+
+// smtConstInt parses an SMT integer literal ("5" or "(- 5)").
+func smtConstInt(s string) (*big.Int, bool) {
+	neg := false
+	if strings.HasPrefix(s, "(- ") && strings.HasSuffix(s, ")") {
+		neg = true
+		s = s[3 : len(s)-1]
+	}
+	if s == "" {
+		return nil, false
+	}
+	for _, ch := range s {
+		if ch < '0' || ch > '9' {
+			return nil, false
+		}
+	}
+	v, ok := new(big.Int).SetString(s, 10)
+	if !ok {
+		return nil, false
+	}
+	if neg {
+		v.Neg(v)
+	}
+	return v, true
 }
